@@ -969,7 +969,7 @@ def run(tier):
             "requests that enable quota accounting on profile `inline` are not run: e2fsck does not count inline-data symlinks in quota usage (pass1.c), so the interim oracle rejects correct quota files there",
             "a refused request carries no obligation (DESIGN 8 rule 1); the image is restored and the sequence continues; refusals that the model does not predict are listed in coverage.model_divergences_on_acceptance",
             "external journals (-J device=), mounted filesystems, -z undo files, -f, -E clear_mmp/encoding, multiple options in one invocation are outside the universe",
-            "the e2fsck run tune2fs asks for may put large_file back (data dependent); otherwise it may touch only state/lastcheck/mount count/free counts/journal backup fields",
+            "the e2fsck run tune2fs asks for may put large_file back (data dependent) and assigns a UUID to a filesystem that has none and no metadata_csum (e2fsck/super.c PR_0_ADD_UUID; reached by `-U clear` followed by a request that asks for e2fsck); otherwise it may touch only state/lastcheck/mount count/free counts/journal backup fields",
         ]
         return vd.finish()
     finally:
